@@ -8,7 +8,7 @@ import c16
 import c20
 import c04
 
-SPECIAL = {"C03": checks.check_C03, "C11": c11.check_C11, "C15": c15.check_C15, "C12": c12.check_C12, "C17": c17.check_C17, "C18": c18.check_C18, "C16": c16.check_C16, "C20": c20.check_C20, "C04": c04.check_C04, "C06": checks.check_C06, "C14": checks.check_C14}
+SPECIAL = {"C03": checks.check_C03, "C11": c11.check_C11, "C15": c15.check_C15, "C12": c12.check_C12, "C17": c17.check_C17, "C18": c18.check_C18, "C16": c16.check_C16, "C20": c20.check_C20, "C04": c04.check_C04, "C06": checks.check_C06, "C14": checks.check_C14, "C13": checks.check_C13}
 
 
 def implemented():
